@@ -182,6 +182,19 @@ type ShowErr struct{ M string }
 func (e *ShowErr) Show() string  { return e.M }
 func (e *ShowErr) Error() string { return e.M }
 
+// Und has fields whose names start with an underscore (not blank ones).
+type Und struct {
+	A     int
+	_rev  int
+	_tags []string
+	_p    *int
+}
+
+// Wins is keyed by an imported struct whose unexported fields have a named type.
+type Wins struct {
+	M map[ext.Win]string
+}
+
 // Anon has anonymous struct fields (Equal, Hash and GoString take them; Compare
 // and DeepCopy refuse them with a diagnostic).
 type Anon struct {
@@ -272,6 +285,20 @@ type Level int
 type Pt struct {
 	X, Y int
 }
+
+type Tick int
+
+// Win is comparable; its unexported fields have a named type.
+type Win struct {
+	start  Tick
+	length Tick
+	Label  string
+}
+
+type pointA struct{ X, Y int }
+
+// PointA can be named from outside, its target cannot.
+type PointA = pointA
 `
 
 const ext2Src = `package ext
@@ -323,6 +350,10 @@ func structTys() []*Ty {
 		mk("Two", false, "ext", "ext2"),
 		mk("ext2.Pt", false, "ext2"),
 		mk("Anon", false, "anon"),
+		mk("Und", false, "unexported", "localpriv"),
+		mk("ext.Win", true, "ext", "unexported", "extpriv"),
+		mk("Wins", false, "ext", "unexported", "extpriv"),
+		mk("ext.PointA", true, "ext", "alias"),
 		mk("geo.Seg", false, "ext", "geo"),
 		mk("Far", false, "ext", "geo"),
 	}
